@@ -23,10 +23,10 @@ func init() {
 			"(U4) applyUpdate copies exactly Version, ChangesetID, Lat, Lon from same-named update fields, flips Orientation only under u.Reverse, and LineStringAt writes lon/lat into the same point slots WayNode.Point uses. " +
 			"NOT decided: composability t1 then t2 and geometry equality as values; negative update indices.",
 		Assumptions: []string{"go/types, go/cfg (x/tools v0.29.0)", "time.Time.After semantics", "orb.Point is [2]float64"},
-		LevelText: "Structural necessary conditions of the update-application semantics, decided on every path of every loop over osm.Updates and at every X[u.Index] site: skip-not-stop on too-late updates, pending list kept in order, index guard dominance, field copy agreement. Value-level composability and geometry equality are not decided.",
-		LevelNote: "Trusts the Go type checker and go/cfg; semantics of time.Time.After; rules cover package osm only (the loops the property names).",
-		Technique: "per-function CFG path rules (go/cfg dominators, edge regions) + type-resolved field-copy tables",
-		DesignRef: "DESIGN.md §5 C15",
+		LevelText:   "Structural necessary conditions of the update-application semantics, decided on every path of every loop over osm.Updates and at every X[u.Index] site: skip-not-stop on too-late updates, pending list kept in order, index guard dominance, field copy agreement. Value-level composability and geometry equality are not decided.",
+		LevelNote:   "Trusts the Go type checker and go/cfg; semantics of time.Time.After; rules cover package osm only (the loops the property names).",
+		Technique:   "per-function CFG path rules (go/cfg dominators, edge regions) + type-resolved field-copy tables",
+		DesignRef:   "DESIGN.md §5 C15",
 		Rules: []*core.Rule{
 			{ID: "U1", Floor: 4, Doc: "too-late updates are skipped and never terminate the scan", Run: c15U1},
 			{ID: "U2", Floor: 4, Doc: "ApplyUpdatesUpTo keeps pending updates in order, applies the rest, propagates errors", Run: c15U2},
